@@ -55,11 +55,13 @@ fn item_texts(rng: &mut SplitMix, cols: u32) -> Vec<String> {
     (0..cols).map(|_| rstr(rng, ITEM_ALPHA, 1, 6)).collect()
 }
 
+#[allow(dead_code)]
 struct Weights {
     // NewInj, CloneInj, DropInj, Spawn, Reparse, Tick, TickUntilIdle, Restart, OpenGate, CheckInj,
     // JoinWriters, Quiesce, Burn, DropNucleo
     ui: [u32; 14],
     writers: (u64, u64),
+    big: u32,    // per mille: a writer op is a big honest batch (1100 / 2100 / 4100 items)
     hold: u32,   // per mille: a push is preceded by HoldNextFill
     faulty: u32, // per mille: a writer op is a lying / panicking one
     big_batches: bool,
@@ -67,15 +69,15 @@ struct Weights {
 
 fn weights(focus: &str) -> Weights {
     match focus {
-        "C06" => Weights { ui: [3, 1, 1, 14, 14, 30, 3, 3, 10, 1, 2, 3, 4, 0], writers: (2, 4), hold: 450, faulty: 60, big_batches: false },
-        "C07" => Weights { ui: [2, 1, 1, 8, 30, 26, 5, 4, 4, 1, 2, 10, 3, 0], writers: (0, 3), hold: 150, faulty: 0, big_batches: false },
-        "C12" => Weights { ui: [5, 2, 3, 12, 8, 28, 4, 18, 5, 3, 2, 4, 3, 0], writers: (1, 4), hold: 250, faulty: 40, big_batches: false },
-        "C19" => Weights { ui: [3, 1, 2, 12, 14, 36, 4, 6, 6, 1, 2, 4, 4, 0], writers: (1, 3), hold: 250, faulty: 30, big_batches: false },
-        "C20" => Weights { ui: [14, 10, 14, 10, 3, 14, 2, 10, 3, 10, 3, 1, 2, 1], writers: (0, 3), hold: 100, faulty: 0, big_batches: false },
-        "C11" => Weights { ui: [6, 3, 8, 14, 5, 16, 3, 10, 5, 2, 3, 2, 3, 3], writers: (1, 4), hold: 150, faulty: 450, big_batches: true },
-        "C09" => Weights { ui: [3, 1, 1, 14, 10, 30, 3, 4, 6, 1, 2, 3, 4, 0], writers: (2, 4), hold: 100, faulty: 20, big_batches: true },
-        "C13" => Weights { ui: [3, 1, 1, 12, 14, 40, 0, 4, 6, 1, 1, 0, 6, 0], writers: (0, 3), hold: 150, faulty: 0, big_batches: false },
-        _ => Weights { ui: [4, 2, 3, 12, 12, 30, 4, 6, 6, 2, 2, 4, 4, 1], writers: (0, 4), hold: 200, faulty: 80, big_batches: false },
+        "C06" => Weights { big: 4, ui: [3, 1, 1, 14, 14, 30, 3, 3, 10, 1, 2, 3, 4, 0], writers: (2, 4), hold: 450, faulty: 60, big_batches: false },
+        "C07" => Weights { big: 2, ui: [2, 1, 1, 8, 30, 26, 5, 4, 4, 1, 2, 10, 3, 0], writers: (0, 3), hold: 150, faulty: 0, big_batches: false },
+        "C12" => Weights { big: 5, ui: [5, 2, 3, 12, 8, 28, 4, 18, 5, 3, 2, 4, 3, 0], writers: (1, 4), hold: 250, faulty: 40, big_batches: false },
+        "C19" => Weights { big: 4, ui: [3, 1, 2, 12, 14, 36, 4, 6, 6, 1, 2, 4, 4, 0], writers: (1, 3), hold: 250, faulty: 30, big_batches: false },
+        "C20" => Weights { big: 8, ui: [14, 10, 14, 10, 3, 14, 2, 10, 3, 10, 3, 1, 2, 1], writers: (0, 3), hold: 100, faulty: 0, big_batches: false },
+        "C11" => Weights { big: 1, ui: [6, 3, 8, 14, 5, 16, 3, 10, 5, 2, 3, 2, 3, 3], writers: (1, 4), hold: 150, faulty: 450, big_batches: true },
+        "C09" => Weights { big: 3, ui: [3, 1, 1, 14, 10, 30, 3, 4, 6, 1, 2, 3, 4, 0], writers: (2, 4), hold: 100, faulty: 20, big_batches: true },
+        "C13" => Weights { big: 2, ui: [3, 1, 1, 12, 14, 40, 0, 4, 6, 1, 1, 0, 6, 0], writers: (0, 3), hold: 150, faulty: 0, big_batches: false },
+        _ => Weights { big: 4, ui: [4, 2, 3, 12, 12, 30, 4, 6, 6, 2, 2, 4, 4, 1], writers: (0, 4), hold: 200, faulty: 80, big_batches: false },
     }
 }
 
@@ -89,6 +91,10 @@ fn writer_ops(rng: &mut SplitMix, w: &Weights, cols: u32, gate: u32, cap: Option
             ops.push(WOp::BurnNextFill { k: 1 + rng.below(12) as u32 });
         }
         let faulty = rng.below(1000) < w.faulty as u64;
+        if rng.below(1000) < w.big as u64 {
+            ops.push(WOp::ExtendBig { n: pick(rng, &[1100u32, 1100, 2100, 2100, 2100, 4100]), seed: rng.next() });
+            continue;
+        }
         match rng.below(10) {
             0..=4 => {
                 if faulty && rng.below(2) == 0 {
@@ -190,7 +196,8 @@ pub fn nucleo_script(rng: &mut SplitMix, focus: &str, thorough: bool) -> NucleoS
         ui.push(UiOp::Quiesce);
     }
     let est = pick(rng, &[150u64, 400, 1000, 2500]);
-    let sched = SchedCfg::generate(rng, est, nw as u32, 400_000);
+    let has_big = writers.iter().flatten().any(|o| matches!(o, WOp::ExtendBig { .. }));
+    let sched = SchedCfg::generate(rng, est, nw as u32, if has_big { 60_000_000 } else { 400_000 });
     NucleoScript {
         pool_threads,
         columns,
